@@ -546,6 +546,70 @@ func taFacts(path string) map[string][]string {
 	return out
 }
 
+// structFields lists "name type" of every field of struct `name` declared in the file, and fails on
+// package-level variables (a key could be kept there).
+func structFields(path, name string) []string {
+	f, err := parser.ParseFile(fset, path, nil, 0)
+	if err != nil {
+		fmt.Fprintln(os.Stderr, "factgen_c19:", err)
+		os.Exit(1)
+	}
+	var out []string
+	for _, d := range f.Decls {
+		gd, ok := d.(*ast.GenDecl)
+		if !ok {
+			continue
+		}
+		if gd.Tok == token.VAR {
+			fail(gd, "package-level variable in %s", path)
+		}
+		for _, sp := range gd.Specs {
+			ts, ok := sp.(*ast.TypeSpec)
+			if !ok || ts.Name.Name != name {
+				continue
+			}
+			st, ok := ts.Type.(*ast.StructType)
+			if !ok {
+				fail(ts, "%s is not a struct", name)
+			}
+			for _, fd := range st.Fields.List {
+				if len(fd.Names) == 0 {
+					out = append(out, "embedded "+ex(fd.Type))
+				}
+				for _, n := range fd.Names {
+					out = append(out, n.Name+" "+ex(fd.Type))
+				}
+			}
+		}
+	}
+	if out == nil {
+		fail(nil, "struct %s not found in %s", name, path)
+	}
+	return out
+}
+
+// assignsReceiverField reports an assignment (or inc/dec) whose target is a field of the receiver.
+func assignsReceiverField(fd *ast.FuncDecl) ast.Node {
+	recv := recvName(fd)
+	var found ast.Node
+	ast.Inspect(fd.Body, func(n ast.Node) bool {
+		switch n := n.(type) {
+		case *ast.AssignStmt:
+			for _, l := range n.Lhs {
+				if strings.HasPrefix(ex(l), recv+".") {
+					found = n
+				}
+			}
+		case *ast.IncDecStmt:
+			if strings.HasPrefix(ex(n.X), recv+".") {
+				found = n
+			}
+		}
+		return found == nil
+	})
+	return found
+}
+
 func parse(path string) map[string]*ast.FuncDecl {
 	f, err := parser.ParseFile(fset, path, nil, 0)
 	if err != nil {
@@ -709,7 +773,16 @@ func main() {
 		fail(rt, "renewalTime body")
 	}
 
-	ff := fetchShape(need(sp, "(*SPIFFE).fetchIdentityCertificate"))
+	fetchFn := need(sp, "(*SPIFFE).fetchIdentityCertificate")
+	ff := fetchShape(fetchFn)
+	// what makes "a fresh key per fetch" true in the code: the key is generated inside every call,
+	// before the CSR, into a local; the call writes no field of the receiver; no field of SPIFFE and no
+	// package-level variable could retain a key or a CSR between calls
+	if n := assignsReceiverField(fetchFn); n != nil {
+		fail(n, "fetchIdentityCertificate assigns a field of its receiver: %s", src(n))
+	}
+	spiffeFields := structFields(filepath.Join(*repo, "crypto", "spiffe", "spiffe.go"), "SPIFFE")
+	svidSourceFields := structFields(filepath.Join(*repo, "crypto", "spiffe", "svidsource.go"), "svidSource")
 
 	// context.go: With stores exactly what SVIDSource returns; From gives it back
 	cx := parse(filepath.Join(*repo, "crypto", "spiffe", "context", "context.go"))
@@ -776,6 +849,17 @@ inductive Role where
 	for i, kv := range ff.fileSet {
 		fs[i] = fmt.Sprintf("(%q, .%s)", kv[0], kv[1])
 	}
+	ws := func(name string, xs []string) {
+		q := make([]string, len(xs))
+		for i, x := range xs {
+			q[i] = strconv.Quote(x)
+		}
+		fmt.Fprintf(&b, "def %s : List String := [%s]\n\n", name, strings.Join(q, ", "))
+	}
+	b.WriteString("/-- Every field of `SPIFFE` / `svidSource` (name and type); no package-level variable exists. -/\n")
+	ws("spiffeFields", spiffeFields)
+	ws("svidSourceFields", svidSourceFields)
+	b.WriteString("/-- `fetchIdentityCertificate` contains no assignment to a field of its receiver. -/\ndef fetchAssignsNoField : Bool := true\n\n")
 	fmt.Fprintf(&b, "/-- The map handed to the single `dir.Write` call. -/\ndef fileSet : List (String × Role) := [%s]\n\n", strings.Join(fs, ", "))
 	ta := taFacts(filepath.Join(*repo, "crypto", "spiffe", "trustanchors", "file.go"))
 	b.WriteString(`/-- Statement kinds of crypto/spiffe/trustanchors/file.go. -/
